@@ -55,7 +55,7 @@ def front_end(files, main="m.emb", keep_cache=True):
             del e.glue._cached_modules[k]
     try:
         ir, dbg, errors = e.glue.parse_emboss_file(main, reader_for(files))
-    except RecursionError:
+    except (RecursionError, CaseTimeout):
         raise
     except Exception as ex:  # noqa
         return None, None, ex
@@ -67,6 +67,8 @@ def back_end(ir, traits=True):
     cfg = e.header_generator.Config(include_enum_traits=traits)
     try:
         header, errors = e.header_generator.generate_header(ir, cfg)
+    except CaseTimeout:
+        raise
     except Exception as ex:  # noqa
         return None, None, ex
     return header, errors, None
